@@ -114,6 +114,15 @@ func (m *MMap) ResetFileSize() error {
 	return m.file.Truncate(m.virtualSize)
 }
 
+// RestoreMapSize 将文件大小恢复为映射区域的大小, 与 ResetFileSize 配对使用
+// 文件被截断后映射区域超出文件末尾的部分不可访问, 继续写入前必须恢复
+func (m *MMap) RestoreMapSize() error {
+	if m.activeMap == nil {
+		return nil
+	}
+	return m.file.Truncate(m.endOff)
+}
+
 // 如果有必要, 扩展映射区域
 func (m *MMap) remap(newBase int64, dataSize int) error {
 	// 如果映射区域已包含所需数据, 直接返回
